@@ -140,6 +140,8 @@ def h_fixture(ctx, modname, clsname, variant, role):
     obs = []
     if role == "in":
         obs += SC.node_obs("rt", out, sym)
+        # converting is not consuming: a second serialisation of the same entity gives the same stanza
+        obs += [(l.replace("rt", "rt(second serialisation)", 1), o) for l, o in SC.node_obs("rt", ent.toProtocolTreeNode(), sym)]
     else:
         obs += SC.codec_contract_obs("codec", out)
         if not H.sym(ctx):
@@ -173,7 +175,7 @@ def finding_key(case, label, values, where):
         return None
     kind, cls, role, variant = m.groups()
     cls = cls.split(":")[-1] if kind == "fixture" else cls.split(":")[0]
-    pm = re.match(r"rt:attribute-names produced=(\[.*\]) expected=(\[.*\])", label)
+    pm = re.match(r"rt(?:\(second serialisation\))?:attribute-names produced=(\[.*\]) expected=(\[.*\])", label)
     if pm and variant in ("without-offline", "without-notify"):
         produced, expected = eval(pm.group(1)), eval(pm.group(2))
         extra = sorted(set(produced) - set(expected))
